@@ -112,7 +112,8 @@ type replayFile struct {
 type knownFinding struct {
 	Property    string `json:"property"`
 	Fingerprint string `json:"fingerprint"`
-	Status      string `json:"status"` // "known" or "fixed"
+	Prefix      string `json:"fingerprint_prefix,omitempty"` // matches a family of fingerprints
+	Status      string `json:"status"`                       // "known" or "fixed"
 	Commit      string `json:"commit,omitempty"`
 	Description string `json:"description"`
 	Example     string `json:"example_replay,omitempty"`
@@ -704,6 +705,16 @@ func loadKnown() []knownFinding {
 	return kf
 }
 
+func matchesKnown(id, fp string) bool {
+	for _, k := range loadKnown() {
+		if k.Property == id && k.Status == "known" &&
+			(k.Fingerprint != "" && k.Fingerprint == fp || k.Prefix != "" && strings.HasPrefix(fp, k.Prefix)) {
+			return true
+		}
+	}
+	return false
+}
+
 func sanitize(s string) string {
 	s = regexp.MustCompile(`[^A-Za-z0-9._-]+`).ReplaceAllString(s, "_")
 	if len(s) > 80 {
@@ -915,7 +926,7 @@ func main() {
 		var wg sync.WaitGroup
 		sem := make(chan struct{}, *procs)
 		for i, fv := range bt.viols {
-			if !fv.raw || fv.seedOnly || i >= 24 {
+			if !fv.raw || fv.seedOnly || i >= 24 || matchesKnown(p.id, fv.v.Fingerprint) {
 				continue
 			}
 			wg.Add(1)
@@ -948,11 +959,13 @@ func main() {
 		seenFP[fv.v.Fingerprint] = true
 		isKnown := false
 		for _, k := range known {
-			if k.Property == id && k.Status == "known" && k.Fingerprint == fv.v.Fingerprint {
+			if k.Property == id && k.Status == "known" &&
+				(k.Fingerprint != "" && k.Fingerprint == fv.v.Fingerprint || k.Prefix != "" && strings.HasPrefix(fv.v.Fingerprint, k.Prefix)) {
 				isKnown = true
-				if !knownHit[k.Fingerprint] {
-					fmt.Printf("KNOWN-FINDING: property=%s %s -- %s\n", id, k.Fingerprint, k.Description)
-					knownHit[k.Fingerprint] = true
+				key := k.Fingerprint + k.Prefix
+				if !knownHit[key] {
+					fmt.Printf("KNOWN-FINDING: property=%s %s -- %s\n", id, fv.v.Fingerprint, k.Description)
+					knownHit[key] = true
 				}
 			}
 		}
